@@ -86,7 +86,9 @@ impl Prop for P20 {
                 _ => opts.push(json!({"o": "L", "k": 1 + rng.below(3)})),
             }
         }
-        let pieces: Vec<String> = vec![the_r.clone(), "x".into(), "-".into(), "é".into(), "/".into(), "=".into(), the_r.clone(), "ab".into(), " ".into()];
+        // also a proper prefix of R right in front of R ("{{}", "aab" for R = "ab")
+        let partial: String = the_r.chars().take(the_r.chars().count().saturating_sub(1).max(1)).collect();
+        let pieces: Vec<String> = vec![the_r.clone(), "x".into(), "-".into(), "é".into(), "/".into(), "=".into(), the_r.clone(), "ab".into(), " ".into(), partial];
         let ninit = rng.below(4);
         let init: Vec<Value> = (0..ninit)
             .map(|_| {
